@@ -261,7 +261,7 @@ void eval_wall(Ctx& c) {
 
 void reg_sa() {
   { Sol s; s.name = "rans_sa"; s.prop = "C05"; s.nargs = 1; s.draw = draw_rans; s.point = point_rans; s.eval = eval_rans; s.delta_kind = [](const Sol&, const std::string& n) { return (n == "cv2" || n == "cv3") ? 0 : 1; }; s.special_ok = [](const std::string&) { return 0; }; s.zero_coord_from = -1; add(s); }
-  { Sol s; s.name = "fans_sa_transient_free_shear"; s.prop = "C05"; s.nargs = 3; s.draw = draw_free; s.point = box_point; s.eval = eval_free; s.stretch = 1; s.special_ok = [](const std::string& n) { return (n == "u_0" || n == "v_0") ? 2 : default_special_ok(n); }; add(s); }
+  { Sol s; s.name = "fans_sa_transient_free_shear"; s.prop = "C05"; s.nargs = 3; s.draw = draw_free; s.point = box_point; s.eval = eval_free; s.stretch = 1; s.nodal = roy_nodal; s.special_ok = [](const std::string& n) { return (n == "u_0" || n == "v_0") ? 2 : default_special_ok(n); }; add(s); }
   { Sol s; s.name = "fans_sa_steady_wall_bounded"; s.prop = "C05"; s.nargs = 2; s.draw = draw_wall; s.point = point_wall; s.eval = eval_wall; s.special_ok = [](const std::string&) { return 0; }; s.zero_coord_from = -1; add(s); }
 }
 }  // namespace orc
